@@ -911,7 +911,13 @@ namespace chaiscript {
         const auto start = m_position;
         if (Id_()) {
           auto text = Position::str(start, m_position);
-          const auto text_hash = utility::hash(text);
+
+          // The word literals are recognised by their exact spelling; the hash only selects the case below.
+          // Any other identifier - including one whose hash collides with a word literal - takes the default case.
+          constexpr std::array<std::string_view, 9> word_literals{
+              {"true", "false", "Infinity", "NaN", "__LINE__", "__FILE__", "__FUNC__", "__CLASS__", "_"}};
+          const bool is_word_literal = std::find(word_literals.begin(), word_literals.end(), text) != word_literals.end();
+          const auto text_hash = is_word_literal ? utility::hash(text) : utility::hash("");
 
           if (validate) {
             validate_object_name(text);
